@@ -160,10 +160,10 @@ def run_histories(payload):
                 for qi, path in enumerate(hist.get("paths", [])):
                     names = [_coll_name(h, c) for c in path]
                     for (t, d) in sorted({(t, d) for (_, t, d) in hist["keys"]}):
-                        for pi, p in enumerate(probes):
-                            pth.append([qi, t, d, pi, _find(butler, TYPE_NAMES[t], d, names, p, ds_num)])
+                        for pi in hist.get("path_probes", range(len(probes))):
+                            pth.append([qi, t, d, pi, _find(butler, TYPE_NAMES[t], d, names, probes[pi], ds_num)])
                 obs["path"] = pth
-                if payload.get("query_datasets"):
+                if hist.get("query_datasets") or payload.get("query_datasets"):
                     obs["qd"] = _query_datasets(butler, h, hist, probes, ds_num)
                 steps.append(obs)
             results.append({"steps": steps, "wall": round(time.time() - t0, 2)})
@@ -182,7 +182,8 @@ def _query_datasets(butler, h, hist, probes, ds_num):
     from lsst.daf.butler import CalibrationLookupError
     out = []
     for (c, t, d) in hist["keys"]:
-        for pi, p in enumerate(probes):
+        for pi in hist.get("qd_probes", range(len(probes))):
+            p = probes[pi]
             try:
                 with butler.query() as q:
                     q = q.join_dataset_search(TYPE_NAMES[t], [_coll_name(h, c)])
